@@ -16,5 +16,62 @@ THEOREMS = ["Tx3.Cbor.beNat_natToBytes", "Tx3.PData.C09_read_write", "Tx3.PData.
 ASSUMPTIONS = [cc.MODEL_NOTE, "constructor indices are drawn from 0..6, 7..127, the boundaries {6,7,8,127,128,129,139,1000}; integers from the i128 boundary set"]
 
 
+SOURCE_RULE = (
+    " Plus the source-level stream of C01 (generated programs with record and variant constructors, spreads, fields "
+    "written in any order, datums of every kind): the inline datum of every output of the compiled transaction, read "
+    "by the Lean reader, must be the value the constructor expression denotes (clauses output-datum*)."
+)
+
+
 def check(tier, seed, replay):
-    return cc.run(PROP, tier, seed, replay, TARGETS, THEOREMS, cc.GEN_RULE, ASSUMPTIONS)
+    import json
+    from . import core
+    rep = core.Report(PROP, tier, seed)
+    only = None
+    if replay:
+        r = json.load(open(replay))
+        seed, tier, only = r.get("seed", seed), r.get("tier", tier), r.get("case_index")
+        rep.seed, rep.tier = seed, tier
+    ok = core.standard_prologue(rep, PROP, TARGETS, TARGETS, THEOREMS)
+    if ok:
+        n = 1500 if tier == "quick" else 60000
+        rc, cases, err = core.harness_run(PROP, seed, n, tier, only=only)
+        rep.obligation("harness-run", rc == 0, err)
+        rc2, verdicts, err2 = core.driver_run(PROP, cases)
+        rep.obligation("driver-run", rc2 == 0, err2)
+        rep.ingest(cases, verdicts)
+        if only is None:
+            # constructors as the language writes them: the whole pipeline, judged on the datum clauses only
+            n2 = 400 if tier == "quick" else 8000
+            rc3, cases3, err3 = core.harness_run("C01", seed, n2, tier, workname="C09-source")
+            rep.obligation("harness-run:source-level", rc3 == 0, err3)
+            rc4, verdicts3, err4 = core.driver_run("C01", cases3)
+            rep.obligation("driver-run:source-level", rc4 == 0, err4)
+            kept = verdicts3 + ".datum"
+            with open(verdicts3) as f, open(kept, "w") as g:
+                for line in f:
+                    line = line.strip()
+                    if not line:
+                        continue
+                    v = json.loads(line)
+                    if "error" not in v:
+                        v["spec"] = [c for c in v.get("spec", []) if c.startswith("output-datum")]
+                        v["corr"] = []
+                        v["tags"] = ["source-level"] + [t for t in v.get("tags", []) if t.startswith("datum")]
+                        # indices of the two streams must not collide in the report
+                        v["i"] = 10_000_000 + v["i"]
+                    g.write(json.dumps(v) + "\n")
+            shifted = cases3 + ".shifted"
+            with open(cases3) as f, open(shifted, "w") as g:
+                for line in f:
+                    try:
+                        c = json.loads(line)
+                    except Exception:
+                        continue
+                    c["i"] = 10_000_000 + c["i"]
+                    g.write(json.dumps(c) + "\n")
+            rep.ingest(shifted, kept)
+    return rep.finish(
+        "proof", cc.GEN_RULE + SOURCE_RULE, ASSUMPTIONS,
+        f"cd /verif/lean && lake build {' '.join(TARGETS)} && lake env lean .audit/{PROP}.lean  (#print axioms)",
+    )
